@@ -389,6 +389,15 @@ impl<'a> Machine<'a> {
             None => &self.main_regs,
         }
     }
+    /// Control reached a function entry without a call (jump, branch or fall-through): from here on
+    /// "the value at entry to the enclosing function" means the value now.
+    pub fn rebase_activation(&mut self) {
+        let regs = self.regs;
+        match self.acts.last_mut() {
+            Some(a) => a.entry_regs = regs,
+            None => self.main_regs = regs,
+        }
+    }
     pub fn frame_id(&self) -> u64 {
         self.acts.last().map(|a| a.id).unwrap_or(0)
     }
